@@ -627,7 +627,15 @@ fn tls13_hellos(t: &mut Tape) -> Vec<u8> {
 }
 
 fn gen_input(t: &mut Tape) -> (String, Vec<u8>) {
-    match t.weighted(&[4, 1, 10, 1, 4, 2, 1, 2]) {
+    match t.weighted(&[4, 1, 10, 1, 4, 2, 1, 2, 1]) {
+        8 => {
+            // SSLv2-compatible ClientHello bytes, alone or followed by ordinary records
+            let (mut b, _) = gen_sslv2_hello(t);
+            if t.bool() {
+                b.extend(gen_record(t).to_bytes());
+            }
+            ("sslv2-hello".into(), b)
+        }
         7 => ("tls13-hellos".into(), tls13_hellos(t)),
         4 => ("edge-headers".into(), edge_headers(t)),
         5 => ("utf8-names".into(), utf8_names(t)),
